@@ -54,7 +54,8 @@ pub fn engines() -> Vec<Engine> {
             "probe.merge_in_ancestry", "probe.several_tags_on_base_commit", "probe.valid_tag_unreachable", "probe.older_valid_tag_shadowed",
             "probe.detached_head", "probe.dirty", "probe.touched_but_clean", "probe.annotated_base_tag", "probe.nested_tag_invisible",
             "probe.child_older_than_parent", "probe.expect_no_version", "probe.unborn_head", "probe.several_nearest_commits",
-            "probe.invalid_tag_nearer_than_base", "probe.merge_inside_distance", "probe.answer_not_unique",
+            "probe.invalid_tag_nearer_than_base", "probe.merge_inside_distance", "probe.answer_not_unique", "probe.several_roots_in_ancestry",
+            "probe.version_named_tag_on_a_tree",
         ],
         init: None,
         eval_counter: None,
